@@ -85,6 +85,22 @@ CHECKS["C07"] = dict(category="model_checking", text=_BISYNC_TEXT + " C07: every
     technique="TLA+ ArchiveFault action + NoBaseNoDelete invariant (TLC) + fault injection on the real archive file for reachable states, edges validated by TLC",
     note="as C02; faults applied to the archive file the real code wrote", engine="G")
 
+CHECKS["C08"] = dict(category="fault_enumeration",
+    text="TLC model-checks bisync at the granularity of its mutating libc calls with a crash before any of them and recovery "
+         "(invariants Atomic, RecordNotAhead incl. the fsync ordering clause, ArchiveWhole, RefinesRun, RecoveryOK); the real binary is "
+         "killed before its k-th mutating call for every k = 1..N of every scenario class (LD_PRELOAD shim), snapshots after the kill "
+         "and after recovery; TLC replays the logged calls through the model's Exec, checks the invariants at every replayed state and "
+         "decides the clauses on the observed snapshots. Exhaustive in k per scenario.",
+    design_ref="5 (C08), 4.5, A4", technique="TLA+ crash model (TLC) + kill-at-k fault enumeration on the real binary + trace validation of the libc call log and snapshots",
+    note="process kill keeps completed syscalls; durability = presence and order of fsync calls; shim interposes libc (Rust std reaches the kernel through it)", engine="S")
+CHECKS["C15"] = dict(category="model_checking",
+    text="A: Glob.tla / PlanSpec.tla exhaustively (pattern semantics, excludes never transferred or deleted, no delete without --delete) "
+         "with replay into the real matcher/planner; B: bisync --dry-run on every state of the implementation graph (byte+mtime "
+         "snapshot equal, printed plan = spec plan = what the real run does); C: sync -r edges of the one-way graph with exclude / "
+         "delete / dry-run flags.",
+    design_ref="5 (C15)", technique="TLA+ case analysis + implementation-graph exploration with TLC edge validation (dry-run and flag clauses)",
+    note="shares machinery with C19, C02 and C04", engine="G")
+
 NOT_BUILT = "check not built yet in this round (planned in DESIGN.md section 5)"
 
 
@@ -117,6 +133,9 @@ def main():
             "add_only": True,
         },
         "engines": [
+            {"name": "S", "path": "/verif/shim/copia_shim.c + /verif/lib/bisync_crash.py, oneway*.py, hub*.py",
+             "serves_properties": ["C08", "C09", "C03", "C10", "C11"],
+             "kind_free_text": "LD_PRELOAD shim: log / kill-at-k / deterministic scheduling of the unmodified binary; traces validated by TLC"},
             {"name": "G", "path": "/verif/spec/Bisync*.tla + /verif/lib/bisync_graph.py",
              "serves_properties": ["C02", "C06", "C07", "C15"],
              "kind_free_text": "implementation transition graph explored with the real CLI; edges validated by TLC (Conform + Monitor)"},
